@@ -1,7 +1,23 @@
-(* Props/C18.v — C18: every reported size and offset is exact.  Chunk level (this file, growing). *)
-From PNA Require Import Base Crc32 Codec Chunk Archive Entry BaseFacts ChunkFacts ArchiveFacts EntryFacts.
+(* Props/C18.v — C18: every reported size and offset is exact.
+   Theorem families (all about the executable model of lib/src/chunk*.rs, archive/{read,write}.rs, entry.rs,
+   cli/src/command/chunk.rs; proofs in Proofs/{ChunkFacts,EntryFacts,OffsetFacts}.v):
+     chunk      size of a serialised chunk = bytes_len; a read consumes exactly that many bytes
+     offsets    `pna experimental chunk list`: for ALL byte strings, every printed offset is 8 + the sizes of the
+                chunks printed before it, and reading at that offset returns exactly the printed chunk; offsets start
+                at 8, increase strictly, end with the (only) AEND, which lies inside the file
+     seek       seek_to_end stops at the listed offset of AEND on every listable input; on a written archive that is
+                length - 12, and cutting there + new entry + end marker = the archive of the extended entry list
+     counts     add_entry / add_entry_part: returned count = bytes appended = 12 per chunk + payloads, for raw chunk
+                lists, normal entries, solid entries, read entries, entry parts and the halves of EntryPart::split;
+                length of a whole archive = 8 + 20 + counts + 12
+     sizes      compressed size = sum of the data payloads; raw size = value of the last fSIZ chunk
+   The sizes of a BUILT entry (raw size = content length for every call partition, codec, cipher) belong to the
+   pipeline area (Props/C01*.v) and are checked here on the implementation by the `sizes` cases. *)
+From PNA Require Import Base Crc32 Codec Chunk Archive Entry BaseFacts ChunkFacts ArchiveFacts EntryFacts OffsetFacts.
+From PNA Require Split.
 Open Scope N_scope.
 
+(* ---- chunk ----------------------------------------------------------------------------------------------- *)
 Theorem C18_chunk_byte_length :
   forall c, wf_chunk c -> len (ser_chunk c) = bytes_len c.
 Proof. exact ser_chunk_len. Qed.
@@ -11,17 +27,230 @@ Print Assumptions C18_chunk_byte_length.
 Theorem C18_chunk_read_consumes_its_length :
   forall bs c r, read_chunk_stream bs = Ok (c, r) -> wf_chunk c /\ bs = ser_chunk c ++ r.
 Proof. exact read_chunk_ok_inv. Qed.
+Check C18_chunk_read_consumes_its_length :
+  forall bs c r, read_chunk_stream bs = Ok (c, r) -> wf_chunk c /\ bs = ser_chunk c ++ r.
 Print Assumptions C18_chunk_read_consumes_its_length.
 
+(* ---- offsets: `pna experimental chunk list` ------------------------------------------------------------------ *)
+(* for every input: line k shows offset 8 + (sizes of the chunks of lines 0..k-1); the chunk lies inside the file
+   at that offset; the chunk reader positioned there returns exactly that chunk and stops at offset + size *)
+Theorem C18_chunk_list_offsets_exact :
+  forall bs l, chunk_list bs = Ok l ->
+  forall k c off, nth_error l k = Some (c, off) ->
+    off = 8 + sumN (map bytes_len (firstn k (map fst l))) /\
+    off + bytes_len c <= len bs /\
+    read_chunk_stream (skipn (N.to_nat off) bs) = Ok (c, skipn (N.to_nat (off + bytes_len c)) bs).
+Proof. exact chunk_list_exact. Qed.
+Check C18_chunk_list_offsets_exact :
+  forall bs l, chunk_list bs = Ok l ->
+  forall k c off, nth_error l k = Some (c, off) ->
+    off = 8 + sumN (map bytes_len (firstn k (map fst l))) /\
+    off + bytes_len c <= len bs /\
+    read_chunk_stream (skipn (N.to_nat off) bs) = Ok (c, skipn (N.to_nat (off + bytes_len c)) bs).
+Print Assumptions C18_chunk_list_offsets_exact.
+
+(* first offset 8; chunks do not overlap (offset_i + size_i <= offset_j for i < j); the last line is AEND, it is the
+   only AEND, and its 12 bytes lie inside the file *)
+Theorem C18_chunk_list_order :
+  forall bs l, chunk_list bs = Ok l ->
+  (exists c tl, l = (c, 8) :: tl) /\
+  (forall i j ci oi cj oj, (i < j)%nat -> nth_error l i = Some (ci, oi) -> nth_error l j = Some (cj, oj) ->
+     oi + bytes_len ci <= oj) /\
+  (exists init a off, l = init ++ [(a, off)] /\ ty_is a AEND = true /\ off + 12 <= len bs /\
+     Forall (fun p => ty_is (fst p) AEND = false) init).
+Proof. exact chunk_list_order. Qed.
+Check C18_chunk_list_order :
+  forall bs l, chunk_list bs = Ok l ->
+  (exists c tl, l = (c, 8) :: tl) /\
+  (forall i j ci oi cj oj, (i < j)%nat -> nth_error l i = Some (ci, oi) -> nth_error l j = Some (cj, oj) ->
+     oi + bytes_len ci <= oj) /\
+  (exists init a off, l = init ++ [(a, off)] /\ ty_is a AEND = true /\ off + 12 <= len bs /\
+     Forall (fun p => ty_is (fst p) AEND = false) init).
+Print Assumptions C18_chunk_list_order.
+
+(* the premise is met by, and the listing is complete for, every archive the writer produces *)
+Theorem C18_chunk_list_of_written_archive :
+  forall num es, Forall wf_entry es ->
+  chunk_list (write_raw_archive num es) = Ok (offsets_from 8 (archive_chunks num es)).
+Proof. exact chunk_list_written. Qed.
+Check C18_chunk_list_of_written_archive :
+  forall num es, Forall wf_entry es ->
+  chunk_list (write_raw_archive num es) = Ok (offsets_from 8 (archive_chunks num es)).
+Print Assumptions C18_chunk_list_of_written_archive.
+
+(* ---- seek_to_end ------------------------------------------------------------------------------------------------ *)
+(* seek_loop counts from the end of the 28-byte header; it walks length fields only (no CRC), yet on every input the
+   chunk iterator accepts it ends exactly at the listed AEND offset, and reports a successor iff ANXT is listed *)
+Theorem C18_seek_stops_at_listed_aend :
+  forall bs l h r, chunk_list bs = Ok l -> read_header read_chunk_stream bs = Ok (h, r) ->
+  exists init a off, l = init ++ [(a, off)] /\ ty_is a AEND = true /\ 28 <= off /\
+    length bs = (28 + length r)%nat /\
+    seek_loop (S (length r)) r 0 false = Ok (off - 28, existsb (fun p => ty_is (fst p) ANXT) init).
+Proof. exact seek_exact. Qed.
+Check C18_seek_stops_at_listed_aend :
+  forall bs l h r, chunk_list bs = Ok l -> read_header read_chunk_stream bs = Ok (h, r) ->
+  exists init a off, l = init ++ [(a, off)] /\ ty_is a AEND = true /\ 28 <= off /\
+    length bs = (28 + length r)%nat /\
+    seek_loop (S (length r)) r 0 false = Ok (off - 28, existsb (fun p => ty_is (fst p) ANXT) init).
+Print Assumptions C18_seek_stops_at_listed_aend.
+
+Theorem C18_seek_written_archive :
+  forall num es, num < 2 ^ 32 -> Forall wf_entry es ->
+  let a := write_raw_archive num es in
+  exists r, read_header read_chunk_stream a = Ok ({| a_major := 0; a_minor := 0; a_number := num |}, r) /\
+            len a = 28 + len r /\
+            seek_loop (S (length r)) r 0 false = Ok (len a - 12 - 28, false).
+Proof. exact seek_written. Qed.
+Check C18_seek_written_archive :
+  forall num es, num < 2 ^ 32 -> Forall wf_entry es ->
+  let a := write_raw_archive num es in
+  exists r, read_header read_chunk_stream a = Ok ({| a_major := 0; a_minor := 0; a_number := num |}, r) /\
+            len a = 28 + len r /\
+            seek_loop (S (length r)) r 0 false = Ok (len a - 12 - 28, false).
+Print Assumptions C18_seek_written_archive.
+
+(* byte-level core of append (C11): position found = length - 12; archive cut there ++ new entry ++ end marker
+   = the archive the writer produces for the extended entry list *)
+Theorem C18_append_at_seek_position :
+  forall num es new, num < 2 ^ 32 -> Forall wf_entry es ->
+  let a := write_raw_archive num es in
+  exists r off nxt, read_header read_chunk_stream a = Ok ({| a_major := 0; a_minor := 0; a_number := num |}, r) /\
+    seek_loop (S (length r)) r 0 false = Ok (off, nxt) /\ nxt = false /\
+    28 + off = len a - 12 /\
+    firstn (N.to_nat (28 + off)) a ++ fst (add_chunks new) ++ finalize = write_raw_archive num (es ++ [new]).
+Proof. exact append_at_seek. Qed.
+Check C18_append_at_seek_position :
+  forall num es new, num < 2 ^ 32 -> Forall wf_entry es ->
+  let a := write_raw_archive num es in
+  exists r off nxt, read_header read_chunk_stream a = Ok ({| a_major := 0; a_minor := 0; a_number := num |}, r) /\
+    seek_loop (S (length r)) r 0 false = Ok (off, nxt) /\ nxt = false /\
+    28 + off = len a - 12 /\
+    firstn (N.to_nat (28 + off)) a ++ fst (add_chunks new) ++ finalize = write_raw_archive num (es ++ [new]).
+Print Assumptions C18_append_at_seek_position.
+
+(* ---- counts returned by add_entry / add_entry_part ----------------------------------------------------------------- *)
 (* the byte count returned when adding an entry / entry part equals the bytes written *)
 Theorem C18_add_entry_count :
   forall cs, Forall wf_chunk cs -> snd (add_chunks cs) = len (fst (add_chunks cs)).
 Proof. exact add_chunks_count. Qed.
+Check C18_add_entry_count :
+  forall cs, Forall wf_chunk cs -> snd (add_chunks cs) = len (fst (add_chunks cs)).
 Print Assumptions C18_add_entry_count.
 
+(* the same needs only 4-byte chunk types (ty4), and the count is 12 per chunk + payloads for every chunk list *)
+Theorem C18_add_entry_count_formula :
+  forall cs, snd (add_chunks cs) = 12 * len cs + payload_total cs.
+Proof. exact add_chunks_count_formula. Qed.
+Check C18_add_entry_count_formula :
+  forall cs, snd (add_chunks cs) = 12 * len cs + payload_total cs.
+Print Assumptions C18_add_entry_count_formula.
+
+Theorem C18_add_entry_count_normal :
+  forall e, Forall ty4 (n_extra e) ->
+  snd (add_chunks (ser_normal e)) = len (fst (add_chunks (ser_normal e))) /\
+  snd (add_chunks (ser_normal e)) = 12 * len (ser_normal e) + payload_total (ser_normal e).
+Proof. exact add_entry_count_normal. Qed.
+Check C18_add_entry_count_normal :
+  forall e, Forall ty4 (n_extra e) ->
+  snd (add_chunks (ser_normal e)) = len (fst (add_chunks (ser_normal e))) /\
+  snd (add_chunks (ser_normal e)) = 12 * len (ser_normal e) + payload_total (ser_normal e).
+Print Assumptions C18_add_entry_count_normal.
+
+Theorem C18_add_entry_count_solid :
+  forall s, Forall ty4 (so_extra s) ->
+  snd (add_chunks (ser_solid s)) = len (fst (add_chunks (ser_solid s))) /\
+  snd (add_chunks (ser_solid s)) = 12 * len (ser_solid s) + payload_total (ser_solid s).
+Proof. exact add_entry_count_solid. Qed.
+Check C18_add_entry_count_solid :
+  forall s, Forall ty4 (so_extra s) ->
+  snd (add_chunks (ser_solid s)) = len (fst (add_chunks (ser_solid s))) /\
+  snd (add_chunks (ser_solid s)) = 12 * len (ser_solid s) + payload_total (ser_solid s).
+Print Assumptions C18_add_entry_count_solid.
+
+Theorem C18_add_entry_count_read_entry :
+  forall x, Forall ty4 (extras_of x) ->
+  snd (add_chunks (ser_entry x)) = len (fst (add_chunks (ser_entry x))) /\
+  snd (add_chunks (ser_entry x)) = 12 * len (ser_entry x) + payload_total (ser_entry x).
+Proof. exact add_entry_count_entry. Qed.
+Check C18_add_entry_count_read_entry :
+  forall x, Forall ty4 (extras_of x) ->
+  snd (add_chunks (ser_entry x)) = len (fst (add_chunks (ser_entry x))) /\
+  snd (add_chunks (ser_entry x)) = 12 * len (ser_entry x) + payload_total (ser_entry x).
+Print Assumptions C18_add_entry_count_read_entry.
+
+(* an entry that came through the reader and the parser: no premise left *)
+Theorem C18_add_entry_count_parsed :
+  forall cs x, Forall wf_chunk cs -> parse_entry cs = Ok x ->
+  snd (add_chunks (ser_entry x)) = len (fst (add_chunks (ser_entry x))).
+Proof. exact add_entry_count_parsed. Qed.
+Check C18_add_entry_count_parsed :
+  forall cs x, Forall wf_chunk cs -> parse_entry cs = Ok x ->
+  snd (add_chunks (ser_entry x)) = len (fst (add_chunks (ser_entry x))).
+Print Assumptions C18_add_entry_count_parsed.
+
+Theorem C18_archive_length :
+  forall num es, Forall (Forall ty4) es ->
+  len (write_raw_archive num es) = 8 + 20 + sumN (map (fun e => snd (add_chunks e)) es) + 12.
+Proof. exact archive_len_counts. Qed.
+Check C18_archive_length :
+  forall num es, Forall (Forall ty4) es ->
+  len (write_raw_archive num es) = 8 + 20 + sumN (map (fun e => snd (add_chunks e)) es) + 12.
+Print Assumptions C18_archive_length.
+
+(* ---- entry parts (Model/Split.v) ------------------------------------------------------------------------------------ *)
+Theorem C18_part_bytes_len :
+  forall p, Forall (fun c : Split.chunk => length (fst c) = 4%nat) p ->
+  Split.bytes_len p = len (ser_chunks (map chunk_of p)) /\
+  Split.bytes_len p = snd (add_chunks (map chunk_of p)).
+Proof. exact part_bytes_len. Qed.
+Check C18_part_bytes_len :
+  forall p, Forall (fun c : Split.chunk => length (fst c) = 4%nat) p ->
+  Split.bytes_len p = len (ser_chunks (map chunk_of p)) /\
+  Split.bytes_len p = snd (add_chunks (map chunk_of p)).
+Print Assumptions C18_part_bytes_len.
+
+(* EntryPart::split: the two sizes add up to the original's, + 12 exactly when a stream chunk was cut in two, and
+   then the first half has exactly the requested size *)
+Theorem C18_split_sizes_exact :
+  forall m p w o, Split.split m p = (w, o) ->
+  match o with
+  | None => w = p /\ Split.bytes_len p <= m
+  | Some rest =>
+    m < Split.bytes_len p /\
+    ((w ++ rest = p /\ Split.bytes_len w + Split.bytes_len rest = Split.bytes_len p /\ Split.bytes_len w <= m) \/
+     (exists a t d1 d2 b, p = a ++ (t, d1 ++ d2) :: b /\ w = a ++ [(t, d1)] /\ rest = (t, d2) :: b /\
+        Split.is_stream (t, d1 ++ d2) = true /\ d1 <> [] /\ d2 <> [] /\
+        Split.bytes_len w = m /\ Split.bytes_len w + Split.bytes_len rest = Split.bytes_len p + 12))
+  end.
+Proof. exact split_sizes_exact. Qed.
+Check C18_split_sizes_exact :
+  forall m p w o, Split.split m p = (w, o) ->
+  match o with
+  | None => w = p /\ Split.bytes_len p <= m
+  | Some rest =>
+    m < Split.bytes_len p /\
+    ((w ++ rest = p /\ Split.bytes_len w + Split.bytes_len rest = Split.bytes_len p /\ Split.bytes_len w <= m) \/
+     (exists a t d1 d2 b, p = a ++ (t, d1 ++ d2) :: b /\ w = a ++ [(t, d1)] /\ rest = (t, d2) :: b /\
+        Split.is_stream (t, d1 ++ d2) = true /\ d1 <> [] /\ d2 <> [] /\
+        Split.bytes_len w = m /\ Split.bytes_len w + Split.bytes_len rest = Split.bytes_len p + 12))
+  end.
+Print Assumptions C18_split_sizes_exact.
+
+(* ---- sizes of a parsed entry ------------------------------------------------------------------------------------------ *)
 (* an entry's compressed size equals the total of its data-chunk payloads *)
 Theorem C18_compressed_size :
   forall cs e, parse_normal cs = Ok e ->
   m_compressed (n_meta e) = fold_left N.add (map len (n_data e)) 0.
 Proof. exact compressed_size_sum. Qed.
+Check C18_compressed_size :
+  forall cs e, parse_normal cs = Ok e ->
+  m_compressed (n_meta e) = fold_left N.add (map len (n_data e)) 0.
 Print Assumptions C18_compressed_size.
+
+(* its raw size is the value of the last fSIZ chunk before FEND (u128 from the last 16 bytes), None without one *)
+Theorem C18_raw_size :
+  forall cs e, parse_normal cs = Ok e -> m_raw_size (n_meta e) = last_fsiz cs.
+Proof. exact raw_size_last_fsiz. Qed.
+Check C18_raw_size :
+  forall cs e, parse_normal cs = Ok e -> m_raw_size (n_meta e) = last_fsiz cs.
+Print Assumptions C18_raw_size.
